@@ -97,7 +97,7 @@ func vfHasPoint(g Geometry, q XY) bool {
 
 // Overlay of two Points: the four set operations, every location q.
 func vfhC01PointPoint() {
-	p1, p2, q := vfPt("p1"), vfPt("p2"), vfPt("q")
+	p1, p2, q := vfPtO("p1"), vfPtO("p2"), vfPtO("q")
 	a, b := vfPointXY(p1).AsGeometry(), vfPointXY(p2).AsGeometry()
 	inA, inB := vfEqXY(q, p1), vfEqXY(q, p2)
 	u, err := Union(a, b)
@@ -118,7 +118,7 @@ func vfhC01PointPoint() {
 
 // Overlay of a Point and a 2-point LineString.
 func vfhC01PointLine() {
-	p, a, b, q := vfPt("p"), vfPt("a"), vfPt("b"), vfPt("q")
+	p, a, b, q := vfPtO("p"), vfPtO("a"), vfPtO("b"), vfPtO("q")
 	vfAssume(!vfEqXY(a, b))
 	ga, gb := vfPointXY(p).AsGeometry(), vfLineXY(a, b).AsGeometry()
 	inA, inB := vfEqXY(q, p), vfOnSeg(q, a, b)
@@ -132,4 +132,18 @@ func vfhC01PointLine() {
 	vfAssert(err == nil && d.Validate() == nil, "Difference succeeds with a valid result")
 	vfAssert(vfHasPoint(d, q) == vfAnd(inA, !inB), "q in Point minus Line iff in A and not B")
 	vfReach("end")
+}
+
+// vfStubDistXYLine replaces distBetweenXYAndLine inside the overlay harnesses.
+// The re-noding step only compares its result with the threshold ulp*0x200
+// (at most 2^-33 for |c| <= 2^10). For lattice operands the true distance is 0
+// when the point lies on the closed segment and at least 2^-12 otherwise, and
+// the float computation is accurate to about 2^-40: the comparison therefore
+// holds iff the point lies on the segment. That error analysis is an assumption
+// of the overlay harnesses (listed in evidence), not something they check.
+func vfStubDistXYLine(xy XY, ln line) float64 {
+	if vfOnSeg(xy, ln.a, ln.b) {
+		return 0
+	}
+	return 1
 }
